@@ -37,7 +37,7 @@ def run(pid, tier, spec, replay_file=None, write=True):
         ncases = sum(1 for _ in open(cases_path))
         obs_path = os.path.join(tmp, 'obs.ndjson')
         p = subprocess.run([harness, 'cases', '-kind', kind, '-in', cases_path, '-out', obs_path],
-                           stdout=subprocess.PIPE, stderr=subprocess.STDOUT, text=True, timeout=3000)
+                           stdout=subprocess.PIPE, stderr=subprocess.STDOUT, text=True, timeout=spec.get('run_timeout', 900))
         if p.returncode != 0 or not os.path.exists(obs_path):
             raise Infra('case runner failed:\n' + p.stdout[-3000:])
         obs = open(obs_path).read().splitlines()
